@@ -83,7 +83,7 @@ fn c15_spec() -> CheckSpec {
         real_components: vec!["a2lfile: sort_new_items, merge_modules, writer ordering (Writer::sort_function), load/write"],
         stubbed_components: vec!["file system (in-memory VFS, used by the write steps only)"],
         expected_probes: vec![">=16-consecutive-sort_new_items", "file-with-several-modules", "new-elements-placed-in-a-later-module", "optional-block-or-if_data-among-the-elements"],
-        plans: vec![ScenarioPlan { scenario: Box::new(c15::C15Histories), quick_runs: 4_000, thorough_runs: 120_000 }],
+        plans: vec![ScenarioPlan { scenario: Box::new(c15::C15Histories), quick_runs: 10_000, thorough_runs: 120_000 }],
     }
 }
 
@@ -120,7 +120,7 @@ fn c17_spec() -> CheckSpec {
         stubbed_components: vec!["file system (in-memory VFS)", "OS randomness feeding std RandomState"],
         expected_probes: vec!["EINTR-retried", "latin1-fallback-exercised", "encoded-include-file"],
         plans: vec![
-            ScenarioPlan { scenario: Box::new(c17::C17Encodings), quick_runs: 20_000, thorough_runs: 2_000_000 },
+            ScenarioPlan { scenario: Box::new(c17::C17Encodings), quick_runs: 40_000, thorough_runs: 2_000_000 },
             ScenarioPlan { scenario: Box::new(c17::C17ArbitraryBytes), quick_runs: 40_000, thorough_runs: 4_000_000 },
         ],
     }
